@@ -7,6 +7,9 @@ R07.2 propagation marks the clients of every updated definition; the dirty set i
       cleared only after the sweep, never while updates are suspended
 R07.3 suspension (context-manager generators that set state) is exception-safe
 R07.4 the calculator's undo bookkeeping is restored on the failure path
+
+Added in build round 2 (see DESIGN.md section 3, round-2 table):
+R07.5 Calculator.change takes the 1-deep undo shortcut only when ALL changes of the last step are reversed in this one (for/else with break on a missing ...
 """
 
 from __future__ import annotations
